@@ -1,4 +1,5 @@
 import NetVerif.Model.HttpProxy
+import NetVerif.Proofs.Lemmas.NetIP
 /-!
 C52 — httpproxy: proxy selection follows the documented NO_PROXY rules.
 
@@ -412,6 +413,18 @@ theorem piece_domain (O : Oracles) (v h port : List Nat)
 
 theorem idnaASCII_ascii (O : Oracles) (v : List Nat) (h : isASCII v = true) : idnaASCII O v = v := by
   simp [idnaASCII, h]
+
+/-- Meaning of an IP entry in terms of normalised addresses (IPv4-mapped IPv6 = IPv4). -/
+theorem ip_entry_meaning (eip port : List Nat) (r : Req) (he : Lemmas.NetIP.IPWF eip)
+    (hr : ∀ ip, r.ip = some ip → Lemmas.NetIP.IPWF ip) :
+    EntryMatches (.ip eip port) r ↔
+      ∃ ip, r.ip = some ip ∧ Lemmas.NetIP.norm eip = Lemmas.NetIP.norm ip ∧ PortOK port r.port := by
+  simp only [EntryMatches]
+  constructor
+  · rintro ⟨ip, h1, h2, h3⟩
+    exact ⟨ip, h1, (Lemmas.NetIP.ipEqual_iff eip ip he (hr ip h1)).1 h2, h3⟩
+  · rintro ⟨ip, h1, h2, h3⟩
+    exact ⟨ip, h1, (Lemmas.NetIP.ipEqual_iff eip ip he (hr ip h1)).2 h2, h3⟩
 
 /-! ### non-vacuity: concrete configurations and requests -/
 
